@@ -126,6 +126,12 @@ PROPS['C08'] = dict(
     level_text='Kernel law: complete in all 64-bit values, lsh and carries for each radix constant (quick: 5 radices, thorough: 18 radices spread over 1..62). Limb loop: unbounded Verus proof that in-place normalisation preserves the torus value mod 1 and leaves every digit balanced.',
     level_note='The Verus theorem imports the kernel law as trait contracts (cross-engine chain); out-of-place/cross-radix normalisation and shifts are covered only by bounded harnesses (N=1, small radices, constant offsets) reported under bounded_checks; encode/decode (i64, i128, single coefficient) are covered by bounded harnesses: decode(encode(x)) == x mod 2^k, exact for |x| < 2^(k-2), digits balanced, encoded torus value == x*2^-k mod 1, other coefficients untouched; decode_vec_float is not covered.',
     units=kernel_units() + [V('vec_znx_normalize'),
+        K('poulpy-cpu-ref', 'verif_kani::c08_ntt120_fused', ['c08_ntt120_fused_add__b4_sa2_sr3_offm9', 'c08_ntt120_fused_sub__b4_sa2_sr3_offm8'], cls='bounded', timeout=900,
+          bound='N=1, radix 4, i128 accumulator of 2 limbs (|x| < 2^20), result 3 balanced limbs, offsets -9 / -8 (two leading limbs receive carry only)',
+          functions=['ntt120_vec_znx_big_normalize_add_assign / _sub_assign (NTT120 family, fused): res +/- a * 2^offset on the torus within one unit of the last limb']),
+        K('poulpy-cpu-ref', 'verif_kani::c08_ntt120_fused', ['c08_ntt120_fused_add__b4_sa2_sr2_off0', 'c08_ntt120_fused_add__b4_sa2_sr3_offm3'], cls='bounded', tier='thorough', timeout=900, bound='as above, offsets 0 / -3'),
+        K('poulpy-cpu-ref', 'verif_kani::c08_shift', ['c02_lsh_sub__b4_a2_r1_k6', 'c02_lsh_add__b4_a2_r2_k3'], cls='bounded', timeout=900, bound='accumulating shifts: see C02',
+          functions=['vec_znx_lsh_sub, vec_znx_lsh::<.., false>']),
         K('poulpy-cpu-ref', 'verif_kani::c08_shift', ['c08_shift__b4_s2_k0', 'c08_shift__b4_s2_k5', 'c08_shift__b4_s2_k9', 'c08_shift_trunc__b4_a2_r1_k0'], cls='bounded', timeout=900,
           bound='N=1, radix 4, size 2 (c08_shift_trunc: 2 limbs into 1), shift amount constant; limbs un-normalised (|x| < 2^12)',
           functions=['vec_znx_lsh', 'vec_znx_rsh', 'vec_znx_lsh_assign', 'vec_znx_rsh_assign']),
@@ -179,6 +185,8 @@ PROPS['C17'] = dict(
     units=[V('znx'), V('vec_znx_arith'), V('vec_znx_ring'), V('vec_znx_normalize'), V('vmp_fft64'), V('vmp_ntt120'), V('cnv_prepare_fft64'), V('cnv_apply_fft64'),
            K('poulpy-cpu-ref', 'hal_defaults::scratch::verif_kani', ['c12_take_slice_aligned_contract', 'c12_take_slice_default_i64', 'c12_take_slice_default_i128'], cls='complete', timeout=600,
              functions=['take_slice_aligned (unsafe)', 'take_slice_default (unsafe cast)']),
+           K('poulpy-hal', 'layouts::vec_znx::verif_kani', ['c18_vec_znx_read_header'], cls='complete', timeout=1500,
+             functions=['<VecZnx as ReaderFrom>::read_from: after ANY header the receiver satisfies size <= max_size and n*cols*max_size*8 <= buffer -- what the unchecked accessors rely on for deserialised objects (seed C17-4)']),
            K('poulpy-hal', 'layouts::vec_znx::verif_kani', ['c17_vec_znx_accessors_layout'], cls='complete', timeout=900,
              functions=['ZnxView::at / at_ptr / raw, ZnxViewMut::at_mut on VecZnx (unsafe from_raw_parts): the I-LAYOUT interface the Verus units trust']),
            K('poulpy-hal', 'layouts::vec_znx::verif_kani', ['c17_vec_znx_reallocate_limbs_invariant'], cls='bounded', timeout=1500,
@@ -321,6 +329,10 @@ PROPS['C02'] = dict(
              cls='bounded', timeout=1500, bound='N=2, ranks 0..2, sizes 1..2',
              functions=['GLWEAdd::glwe_add_into/assign', 'GLWESub::glwe_sub/sub_assign', 'GLWENegate::glwe_negate', 'GLWECopy::glwe_copy', 'GLWERotate::glwe_rotate/rotate_assign', 'GLWEMulXpMinusOne::glwe_mul_xp_minus_one']),
            K('poulpy-cpu-ref', 'verif_kani::c02b', ['c02_glwe_sub_negate_assign__ranks_0_1'], cls='bounded', timeout=900, bound='N=2, ranks (0,1)', functions=['GLWESub::glwe_sub_negate_assign']),
+           K('poulpy-cpu-ref', 'verif_kani::c08_shift', ['c02_lsh_sub__b4_a2_r1_k6', 'c02_lsh_add__b4_a2_r2_k3'], cls='bounded', timeout=900,
+             bound='N=1, radix 4, operand 2 limbs (|x| < 2^12), result 1 or 2 balanced limbs, shift constant, carry buffer DIRTY (symbolic)',
+             functions=['vec_znx_lsh_sub, vec_znx_lsh (accumulating form = vec_znx_lsh_add_into): res -/+ a * 2^k on the torus within one unit of the last limb, whatever the scratch held (kernels behind glwe_lsh_sub / glwe_lsh_add)']),
+           K('poulpy-cpu-ref', 'verif_kani::c08_shift', ['c02_lsh_sub__b4_a2_r2_k3', 'c02_lsh_sub__b4_a2_r1_k0', 'c02_lsh_add__b4_a2_r1_k6'], cls='bounded', tier='thorough', timeout=900, bound='as above'),
            K('poulpy-cpu-ref', 'verif_kani::c02', ['c02_glwe_rotate_mul_xp__n4_rank1'], cls='bounded', tier='thorough', timeout=1500, bound='N=4, rank 1, every rotation amount in i64')],
     trusted_base=VERUS_TRUST + [FMT_STUB, 'I-NEWTYPE / I-GLWE (vx/prelude/newtypes.rs, glwe.rs): Rank/Base2K/Degree wrappers and the GLWE container restated with their specifications (operator impl bodies external)',
                   'HAL dispatch: Module<BE>::vec_znx_* forwards to the reference function whose contract is proved (syntactic)'],
